@@ -163,7 +163,10 @@ def run_case(ctx, rng, ci):
         elif not empty_dims:
             ctx.violation("list-locations-failed", str(o.brief()), case)
         # --- csv: descriptors and counts (obs range enters here)
-        axis = rng.choice(["time", "leadtime", "location", "no", "day"])
+        if any(k in opts for k in ("dates", "tods", "times")):
+            axis = rng.choice(["time", "day", "week", "month", "year", "timeofday", "monthofyear", "dayofmonth", "leadtime"])
+        else:
+            axis = rng.choice(["time", "leadtime", "location", "no", "day", "month", "timeofday", "leadtimeday", "elev"])
         o = runner.run_cli(paths + cflag + oargv + ["-m", "mae", "-agg", "count", "-x", axis, "-type", "csv"])
         ctx.count("csv_checks")
         fields = [("obs",), ("fcst",)]
